@@ -187,7 +187,17 @@ def exec_nesting():
             'println("{z[9]}");', 'println("{a / zero}");', 'println("{word[9]}");', 'string r = "{m[5][5]}"; println(r);',
             'Option<int> o = Option<int>::None; match (o) { Some(v) => { println(v); } }', 'int x = z[z[3] + z[3]];', 'z[z[3] * 2] = z[9];']
     for i, f in enumerate(errs):
-        out.append(("exec-error-path-%d" % i, ep("    %s\n" % f)))
+        slug = "emptystr" if f.startswith("empty[") else ("strstore" if ("word[" in f and "= '" in f) or "t[5] =" in f or "s.n[4]" in f or "big2[" in f else "other")
+        out.append(("exec-error-path-%s-%d" % (slug, i), ep("    %s\n" % f)))
+    # struct definitions that share members (diamonds): the cycle check must stay polynomial
+    for n in (8, 14, 20, 26, 32):
+        out.append(("wide-struct-diamond-exec-%d" % n, "struct S0 { int x; };\n" + "".join("struct S%d { S%d a; S%d b; };\n" % (i, i - 1, i - 1) for i in range(1, n)) +
+                    "int main() {\n    println(1);\n    return 0;\n}\n"))
+    # integer values that look like addresses (above 2^32) stored in arrays / struct members / passed around and used in arithmetic
+    for i, (decl, use) in enumerate([("long[2][2] b;\n    b[0][1] = 5000000000;", "b[0][1] + 1"), ("long[3] b = [5000000000, 140737488355327, 4294967296];", "b[0] + b[1] + b[2]"),
+                                     ("long[2][2] b;\n    b[1][1] = 140737488355000;", "b[1][1] * 2 - b[1][1]"), ("S s;\n    s.v = 1;\n    long w = 93824992235520;", "w + s.v"),
+                                     ("long[2][2][2] b;\n    b[1][0][1] = 94000000000000;", "b[1][0][1] - 1")]):
+        out.append(("exec-addresslike-%d" % i, "struct S { int v; };\nint main() {\n    %s\n    long v = %s;\n    println(v);\n    return 0;\n}\n" % (decl, use)))
     return [(k, p) for k, p in out if len(p.encode("utf-8")) <= 8192]
 
 
@@ -275,7 +285,7 @@ def main(a):
                 problems.append("parse loop did not consume input between iterations %s -> %s (hypothesis of CbProps.C10.progress_terminates)" % where)
         if not problems:
             return
-        cell = kind.rsplit("-", 1)[0] if kind.startswith(("deep-", "long-", "wide-", "double-", "exec-print-form", "exec-error-path")) else kind
+        cell = kind.rsplit("-", 1)[0] if kind.startswith(("deep-", "long-", "wide-", "double-", "exec-print-form", "exec-error-path", "exec-addresslike")) else kind
         sig = (cell, problems[0].split(":")[0])
         if os.environ.get("CB_VERIF_CENSUS"):
             census.setdefault(sig, []).append("%s: %s | %s" % (name, "; ".join(problems), (o[2] or "")[-160:].replace("\n", " ")))
